@@ -1,6 +1,10 @@
 package influxql
 
-import "regexp"
+import (
+	"regexp"
+	"strconv"
+	"strings"
+)
 
 // Engine self-checks (not properties): symbolic library models against the native functions.
 
@@ -43,4 +47,49 @@ func vfH_smoke_regexfind(tier int) {
 	want := re.FindAllStringSubmatchIndex(c, -1)
 	vfAssert(vfDeepEqual(got, want), "smoke/regex-find-model-agrees-with-native-matcher")
 	vfReach("smoke_regexfind/ok")
+}
+
+// symbolic models of the strings package against the native functions
+func vfH_smoke_strings(tier int) {
+	n := vfChoice(4)
+	b := make([]byte, n)
+	for i := range b {
+		b[i] = selfChar()
+	}
+	s := string(b)
+	any := strings.ContainsAny(s, "a\n=")
+	rn := strings.ContainsRune(s, 'b')
+	ix := strings.Index(s, "ab")
+	ix1 := strings.Index(s, "")
+	ct := strings.Contains(s, "b ")
+	ib := strings.IndexByte(s, '1')
+	hp := strings.HasPrefix(s, "a=")
+	hs := strings.HasSuffix(s, "=1")
+	c := vfConcretize(s)
+	vfAssert(any == strings.ContainsAny(c, "a\n="), "smoke/strings/ContainsAny")
+	vfAssert(rn == strings.ContainsRune(c, 'b'), "smoke/strings/ContainsRune")
+	vfAssert(ix == strings.Index(c, "ab"), "smoke/strings/Index")
+	vfAssert(ix1 == strings.Index(c, ""), "smoke/strings/Index-empty")
+	vfAssert(ct == strings.Contains(c, "b "), "smoke/strings/Contains")
+	vfAssert(ib == strings.IndexByte(c, '1'), "smoke/strings/IndexByte")
+	vfAssert(hp == strings.HasPrefix(c, "a="), "smoke/strings/HasPrefix")
+	vfAssert(hs == strings.HasSuffix(c, "=1"), "smoke/strings/HasSuffix")
+	vfReach("smoke_strings/ok")
+}
+
+// strconv.ParseInt model (base 10 and base 0) against the native function
+func vfH_smoke_parseint(tier int) {
+	n := 1 + vfChoice(3)
+	b := make([]byte, n)
+	for i := range b {
+		b[i] = vfIteByte(vfBool(), '0', vfIteByte(vfBool(), '7', vfIteByte(vfBool(), '8', vfIteByte(vfBool(), '1', '-'))))
+	}
+	s := string(b)
+	base := []int{10, 0}[vfChoice(2)]
+	v, err := strconv.ParseInt(s, base, 64)
+	c := vfConcretize(s)
+	wv, werr := strconv.ParseInt(c, base, 64)
+	vfAssert((err == nil) == (werr == nil), "smoke/parseint/error-agrees")
+	vfAssert(v == wv, "smoke/parseint/value-agrees")
+	vfReach("smoke_parseint/ok")
 }
